@@ -1,2 +1,3 @@
 //! In-crate Kani harnesses for tower-resilience-core.
 pub mod env;
+pub mod c20;
